@@ -25,8 +25,15 @@ def main(pid, path):
     name = "replay-%s" % pid
     core.rundir(name)
     files = core.drive(fam, [r["program"]], name, shards=1)
-    mod, cfg = TRACE_SPEC[fam]
-    res = core.validate(mod, cfg, files, name)
+    if fam == "pair":
+        from . import pair
+        wf, rf = pair.split_traces(files, name)
+        res = core.validate("WSWriterTrace.tla", "WSWriterTrace.cfg", wf, name + "-w")
+        if not res["rejections"]:
+            res = core.validate("WSReaderTrace.tla", "WSReaderTrace.cfg", rf, name + "-r")
+    else:
+        mod, cfg = TRACE_SPEC[fam]
+        res = core.validate(mod, cfg, files, name)
     if res["rejections"]:
         rj = res["rejections"][0]
         print("replay: rejected at event %d: %s" % (rj["index"], json.dumps(rj["event"])[:500]))
